@@ -293,6 +293,54 @@ def c18_jobs(tier, seed):
     return jobs
 
 
+SMX = SM('ab\ncd', 'AAAA;AACA', ('o.js',), ('xy\nuv',), ('n',))
+EQ_QUICK = [
+    ('orig', O('a?'), 1), ('raw', R('!a'), 1), ('rawstr', RS('!a'), 1), ('rawbuf', RB('!a'), 1),
+    ('sms', SMX, 1), ('sms combined', SMC('ab', 'AAAA,CAAC', ('i.js',), 'AAAA', ('q.js',), 'xyz'), 1),
+    ('concat[orig,rawstr]', CC(O('a?'), RS('!')), 1), ('concat[]', CC(), 0), ('nested concat', CC(BX(CC(O('?'), RS('a'))), RB('b')), 1),
+    ('replace 2 unsorted', RP(O('abcd'), (2, 3, 'X', 'n'), (0, 1, 'Y')), 2), ('replace none', RP(O('a?')), 1),
+    ('cached(orig)', CA(O('a?')), 2), ('cached(replace)', CA(RP(O('abc'), (1, 2, 'X'))), 1),
+]
+def _e(a, b, dyn=False): return (a, b, dyn)
+NEQ_QUICK = [
+    ('orig text', _e(O('a?'), O('b?'))), ('orig name', _e(O('a?'), O('a?', 'b.js'))), ('orig longer', _e(O('a'), O('a;'))),
+    ('raw vs rawstr same text', _e(R('ab'), RS('ab'), True)), ('raw vs rawbuf same text', _e(R('ab'), RB('ab'), True)), ('orig vs rawstr', _e(O('ab'), RS('ab'), True)),
+    ('rawbuf bytes', _e(RB('a!'), RB('b!'))), ('raw string vs raw text', _e(R('a\n'), R('a'))),
+    ('replace start', _e(RP(O('abcd'), (1, 3, 'X')), RP(O('abcd'), (2, 3, 'X')))), ('replace end', _e(RP(O('abcd'), (1, 2, 'X')), RP(O('abcd'), (1, 3, 'X')))),
+    ('replace content', _e(RP(O('abcd'), (1, 2, 'X')), RP(O('abcd'), (1, 2, 'Y')))), ('replace name', _e(RP(O('abcd'), (1, 2, 'X', 'n')), RP(O('abcd'), (1, 2, 'X', 'm')))),
+    ('replace name presence', _e(RP(O('abcd'), (1, 2, 'X', 'n')), RP(O('abcd'), (1, 2, 'X')))), ('replace enforce', _e(RP(O('abcd'), (1, 1, 'X', None, 0)), RP(O('abcd'), (1, 1, 'X', None, 2)))),
+    ('replace presence', _e(RP(O('abcd'), (1, 2, 'X')), RP(O('abcd')))), ('replace inner', _e(RP(O('abcd'), (1, 2, 'X')), RP(O('abce'), (1, 2, 'X')))),
+    ('replace order of equal keys', _e(RP(O('abcd'), (1, 1, 'X'), (1, 1, 'Y')), RP(O('abcd'), (1, 1, 'Y'), (1, 1, 'X')))),
+    ('sms mappings', _e(SMX, SM('ab\ncd', 'AAAA;AACC', ('o.js',), ('xy\nuv',), ('n',)))), ('sms sources', _e(SMX, SM('ab\ncd', 'AAAA;AACA', ('p.js',), ('xy\nuv',), ('n',)))),
+    ('sms contents', _e(SMX, SM('ab\ncd', 'AAAA;AACA', ('o.js',), ('xy\nuw',), ('n',)))), ('sms names', _e(SMX, SM('ab\ncd', 'AAAA;AACA', ('o.js',), ('xy\nuv',), ('m',)))),
+    ('sms root', _e(SMX, SM('ab\ncd', 'AAAA;AACA', ('o.js',), ('xy\nuv',), ('n',), 'r'))), ('sms text', _e(SMX, SM('ab\nce', 'AAAA;AACA', ('o.js',), ('xy\nuv',), ('n',)))),
+    ('sms inner map presence', _e(SMC('ab', 'AAAA', ('i.js',), 'AAAA', ('q.js',), 'xyz'), dict(SM('ab', 'AAAA', ('i.js',)), name='i.js'))),
+    ('sms inner map', _e(SMC('ab', 'AAAA', ('i.js',), 'AAAA', ('q.js',), 'xyz'), SMC('ab', 'AAAA', ('i.js',), 'AAAC', ('q.js',), 'xyz'))),
+    ('sms remove flag', _e(SMC('ab', 'AAAA', ('i.js',), 'AAAA', ('q.js',), 'xyz', remove=True), SMC('ab', 'AAAA', ('i.js',), 'AAAA', ('q.js',), 'xyz'))),
+    ('sms original source', _e(SMC('ab', 'AAAA', ('i.js',), 'AAAA', ('q.js',), 'xyz'), SMC('ab', 'AAAA', ('i.js',), 'AAAA', ('q.js',), 'xyw'))),
+    ('concat child', _e(CC(O('a'), RS('b')), CC(O('a'), RS('c')))), ('concat order', _e(CC(RS('a'), RS('b')), CC(RS('b'), RS('a')))),
+    ('concat prefix', _e(CC(O('a'), RS('b')), CC(O('a'), RS('b'), RS('c')))), ('concat empty vs one', _e(CC(), CC(RS('a')))),
+    ('concat cut', _e(CC(RS('ab'), RS('c')), CC(RS('a'), RS('bc')))), ('concat child type', _e(CC(RS('a')), CC(R('a')))),
+    ('cached inner', _e(CA(O('a?')), CA(O('b?')))), ('cached vs plain', _e(CA(O('ab')), O('ab'), True)), ('boxed concat vs flat leaf', _e(CC(RS('ab')), RS('ab'), True)),
+]
+
+
+def eq_jobs(tier, seed):
+    jobs = []
+    for name, t, slots in EQ_QUICK:
+        jobs.append(J('eq:' + name, 'jobs.eqhash:eqhash_job', dict(tree_a=t, history_slots=slots), timeout=600))
+        jobs.append(J('eq/dyn:' + name, 'jobs.eqhash:eqhash_job', dict(tree_a=t, history_slots=min(slots, 1), dyn=True), timeout=600))
+    return jobs
+
+
+def neq_jobs(tier, seed):
+    jobs = []
+    for name, (a, b, dyn) in NEQ_QUICK:
+        jobs.append(J('neq:' + name, 'jobs.eqhash:eqhash_job', dict(tree_a=a, tree_b=b, relation='differ', dyn=dyn), timeout=600))
+        if not dyn: jobs.append(J('neq/dyn+history:' + name, 'jobs.eqhash:eqhash_job', dict(tree_a=a, tree_b=b, relation='differ', dyn=True, history_slots=1), timeout=600))
+    return jobs
+
+
 def c13_jobs(tier, seed):
     jobs = []
     for t in C13_QUICK:
@@ -379,6 +427,10 @@ PROPS = {
     'C11': dict(jobs=[tree_jobs(['C11']), replace_jobs(['C11']), sms_jobs(['C11']), combined_jobs(['C11']), codec_c11], bounds=RTREE_BOUNDS, outside=TREE_OUTSIDE, assumptions=TREE_ASSUME),
     'C13': dict(jobs=[c13_jobs], bounds={'quick': 'catalog lib/props.py:C13_QUICK: nested boxed ConcatSource groupings (depth <= 3) vs the flat concatenation; single-child / empty-children ConcatSource, boxing and a ReplaceSource without replacements vs the wrapped source; <= 4 symbolic bytes; text, per-position attribution through map() (both column settings) and through the chunk stream, end info', 'thorough': 'as quick'},
                 outside=TREE_OUTSIDE + '; typed nesting flattened by ConcatSource::new/add and CachedSource wrappers until their stages are registered', assumptions=TREE_ASSUME),
+    'C14': dict(jobs=[eq_jobs, neq_jobs], bounds={'quick': 'catalogs EQ_QUICK (13 shapes of every source type, symbolic bytes, built twice from the same ingredients; typed and through dyn Source; observer history of 1-2 solver-picked calls from {source, size, map, stream, hash, buffer, rope} applied to ONE of the two) and NEQ_QUICK (one-edit pairs): ==, == in the other direction, recorded Hash streams, clone == original with equal stream and equal source()', 'thorough': 'as quick'},
+                outside='histories longer than 2; a BoxSource inside a BoxSource is identified with its content (the type-id contract looks through Arc layers); hash collisions of the final 64-bit hasher', assumptions=TREE_ASSUME + ['Hash is observed through a recording Hasher (write calls of std impls are contracts: str = bytes + terminator as one record)', 'TypeId contract: equal iff same concrete type']),
+    'C20': dict(jobs=[neq_jobs, eq_jobs], bounds={'quick': 'catalog NEQ_QUICK: 37 one-edit pairs (leaf text / name / type at equal text, every field of a replacement incl. order of equal keys, presence of a replacement, every part of an attached map, inner map, remove flag, original source, ConcatSource child / order / prefix / cut, wrapper) - the recorded hasher streams must differ and == must be false, typed and through dyn Source, also after one solver-picked observer call; reproducibility: EQ_QUICK (equal ingredients and any observer history give the identical stream)', 'thorough': 'as quick'},
+                outside='collisions of the final 64-bit hasher (excluded by the property); edits at depth > 2; the SourceMapSource name (deliberately not hashed)', assumptions=TREE_ASSUME + ['Hash is observed through a recording Hasher; nothing but the recorded write calls can influence a Hasher, so equal streams mean equal hashes in every process']),
     'C16': dict(jobs=[rope_jobs], bounds={'quick': 'rope.rs itself interpreted from MIR (no Rope contract): construction programs of the catalog ROPE_QUICK (<= 7 steps over new/from/from_iter/add/append/clone/get_byte_slice, <= 5 pieces incl. empty pieces, 1-4 byte UTF-8 characters, pieces cut inside lines; piece CONTENT symbolic over {a,b}, line structure concrete; slice bounds SYMBOLIC in [0, len+1]); every observer on every register, all pairs for ==, starts_with, == &str; get_byte at every index', 'thorough': 'as quick plus ROPE_THOROUGH'},
                 outside='programs longer than the catalog; symbolic line structure; Rc/Vec allocation behaviour (Rc::make_mut is modelled as copy-on-write), Hash of ropes', assumptions=['Vec / Rc / VecDeque / binary_search_by are contracts (msx/contracts.py); std::binary_search_by is modelled by the algorithm of Rust 1.82+ (returns the last of several equal keys) - rope.rs relies on that unspecified behaviour']),
     'C18': dict(jobs=[c18_jobs], bounds={'quick': 'catalog C18_QUICK: TWO logical threads, <= 2 operations each over map / stream_chunks / source / size / hash / clone on a shared CachedSource (both fill paths and the replay path, both column settings, a clone sharing the caches), ReplaceSource (lazy sort under Mutex + AtomicBool, clone), RawSource / RawBufferSource (OnceLock) and a ConcatSource containing them; EVERY interleaving at the library\'s shared-state accesses (AtomicBool load/store, Mutex::lock, DashMap get/insert/entry, VacantEntry::insert, OnceLock) and at operation boundaries up to 5-8 context switches; locks block, guards release where the MIR drops them', 'thorough': 'as quick with 3 more context switches'},
